@@ -197,14 +197,17 @@ def run(tier):
     rep.extra['sites_where_skool2html_raised'] = len(crashed)
     for c in crashed:
         # every generated site is documented use (existing files, well-formed options): no observation = skool2html failed
-        what = (c['err'].strip().splitlines() or ['?'])[-1]
-        rep.violation('site:skool2html-failed:%s' % what.split(':')[0].split(' ')[0][:40], '%s: skool2html did not get as far as HtmlWriter.init(): %s [%s]'
-                      % (c['key'], what[:200], describe(dict(c, k='site'))[:600]), {'case': c['key'], 'input': c['meta'], 'error': c['err']})
+        if c['exit'] in (None, 0):
+            why, what = 'writer-class-not-used', 'skool2html ran, but not with the HtmlWriter class given with -W'
+        else:
+            why, what = str(c['exit']).split(':')[0].split(' ')[0][:40], 'skool2html stopped: %s' % str(c['exit'])[:200]
+        rep.violation('site:skool2html-failed:%s' % why, '%s: %s [%s]' % (c['key'], what, describe(dict(c, k='site'))[:600]),
+                      {'case': c['key'], 'input': c['meta'], 'output': c['err']})
     cases = [c for c in cases if c['k'] not in ('crash',)]
     cases.append(refdrv.reffile_case())
     log('E03: %d cases recorded' % len(cases))
     cnt = Counter()
-    for c in cases:
+    for c in cases + [dict(c, k='site') for c in crashed]:
         if c['k'] != 'reffile':
             features(c, cnt)
         rep.count()
